@@ -213,7 +213,7 @@ class Emitter:
                 refs = [self.ref_of(a) for a in args]
                 refs = [x for x in refs if x is not None]
                 if refs:
-                    return [("fld", refs[0])]
+                    return [("fld", refs[0], m, len(args))]
                 vals = [self.ev(a, depth + 1) for a in args]
                 vals = [v for v in vals if v and not all(p[0] == "unk" for p in v)]
                 if vals:
@@ -310,9 +310,14 @@ class Emitter:
     def ev_tokens(self, txt, depth):
         """format argument given as token text: a variable, a field access, or a small expression"""
         txt = txt.strip()
+        ms = re.match(r'^"((?:[^"\\]|\\.)*)"(?:\s*\.\s*to_string\s*\(\s*\))?$', txt)
+        if ms:
+            return [("lit", ms.group(1))] if ms.group(1) else []
+        txt = re.sub(r"(\s*\.\s*(to_string|clone|to_owned|as_str)\s*\(\s*\))+$", "", txt).strip()
+        txt = re.sub(r"^&\s*", "", txt)
         if re.match(r"^\w+$", txt):
             return self.ev(["path", txt], depth)
-        m = re.match(r"^(\w+(?:\s*\.\s*\w+)+)(?:\s*\.\s*to_string\s*\(\s*\))?$", txt)
+        m = re.match(r"^(\w+(?:\s*\.\s*\w+)+)$", txt)
         if m:
             segs = [s.strip() for s in m.group(1).split(".")]
             if segs[-1] in ("to_string", "clone"):
@@ -320,12 +325,12 @@ class Emitter:
             base = self.ref.get(segs[0])
             if base is not None:
                 return [("fld", ".".join([base] + segs[1:]).strip("."))]
-        mm = re.match(r"^self\s*\.\s*\w+\s*\(\s*&?\s*(\w+(?:\s*\.\s*\w+)*)\s*\)$", txt)
+        mm = re.match(r"^self\s*\.\s*(\w+)\s*\(\s*&?\s*(\w+(?:\s*\.\s*\w+)*)\s*\)$", txt)
         if mm:
-            segs = [s.strip() for s in mm.group(1).split(".")]
+            segs = [s.strip() for s in mm.group(2).split(".")]
             base = self.ref.get(segs[0])
             if base is not None:
-                return [("fld", ".".join([base] + segs[1:]).strip("."))]
+                return [("fld", ".".join([base] + segs[1:]).strip("."), mm.group(1))]
         return [("unk", txt[:30])]
 
     # ---- statements
@@ -450,6 +455,12 @@ class Emitter:
         for v, vals in accs.items():
             withacc = [x for x in vals if any(p_[0] == "ACC" for p_ in x)]
             val = withacc[0] if withacc else vals[0]
+            # several differently shaped updates of one accumulator (first / middle / last element written differently): the per-element
+            # text depends on the position, which this reader does not model -> mark the element as partly undecided
+            def shape(x):
+                return tuple((p_[0], p_[1] if p_[0] == "lit" else None) for p_ in x if p_[0] != "ACC")
+            lits_first = [x for x in vals if not any(p_[0] == "ACC" for p_ in x) and any(p_[0] == "lit" and p_[1].strip() for p_ in x)]
+            varied = len({shape(x) for x in withacc}) > 1 or bool(lits_first)
             if any(p_[0] == "ACC" for p_ in val):
                 k = [i for i, p_ in enumerate(val) if p_[0] == "ACC"][0]
                 rest = val[k + 1:]
@@ -460,6 +471,8 @@ class Emitter:
                 elem = pre + rest
             else:
                 sep, elem = [], val
+            if varied:
+                elem = elem + [("unk", "element text depends on its position")]
             self.env[v] = list(before.get(v, [])) + [("list", p, sep, elem)]
 
 
@@ -474,8 +487,16 @@ def flatten(parts, out=None, optional=False):
             out.append(("F", p[1], optional))
         elif k == "opt":
             inner = flatten(p[2], [], True)
-            if not any(x[0] in ("F", "LIST", "OPEN") for x in inner):
+            own = re.split(r"[.\[]", p[1])[0]
+            others = [x for x in inner if x[0] in ("F", "LIST", "OPEN") and re.split(r"[.\[]", x[1])[0] != own]
+            inner_fields = [x for x in inner if x[0] in ("F", "LIST", "OPEN")]
+            if not inner_fields or (not others and any(x[0] == "U" for x in inner)):
                 out.append(("F", p[1], True))        # the group as a whole is the rendering of that optional field
+            elif not others:
+                # literals inside a group that renders only its own field may be that field's own syntax (e.g. the braces of an option map)
+                out.append(("OPEN", p[1]))
+                out += [("L~", x[1]) if x[0] == "L" else x for x in inner]
+                out.append(("CLOSE", p[1]))
             else:
                 out.append(("OPEN", p[1]))
                 out += inner
